@@ -19,6 +19,8 @@ Decides:
                           the leftover check inside run_subparser).
  T tokenizer append-only  the vector of items built from argv is only appended to; the single rollback (a cluster that is
                           neither flags nor an argument) truncates to a length saved before anything was pushed.
+ A accept sets            which kinds of item each consumer may claim: the value half of `--name=value` (ArgWord) is claimed only as the
+                          value of the name in front of it, never by a positional or a command - a stray one is left over and fails the run.
  X alternatives           ParseOrElse adopts exactly one fork (see C07).
 Does not decide: that no combination of shapes double-delivers an item through scope arithmetic."""
 import re
@@ -31,7 +33,7 @@ import consumers, scopes, c06
 LEVEL = 'other'
 EXPLANATION = __doc__
 ASSUMPTIONS = ['user closures are pure; third-party Parser impls can only call the public API']
-FLOORS = {'L.ledger': 16, 'P.primitives': 13, 'C.read-remove': 22, 'O.leftover': 2, 'E.discipline': 9, 'S.snapshot': 10, 'R.scope-restore': 4, 'T.tokenizer': 2}
+FLOORS = {'L.ledger': 16, 'P.primitives': 13, 'C.read-remove': 22, 'O.leftover': 2, 'E.discipline': 9, 'S.snapshot': 10, 'R.scope-restore': 4, 'T.tokenizer': 2, 'A.accept-sets': 8}
 
 def run(ctx):
     cfgs = ['none', 'all'] if ctx.tier == 'quick' else ['none', 'all', 'ac', 'doc', 'dull', 'bat']
@@ -47,6 +49,7 @@ def run(ctx):
         ctx.guard(snapshot, ctx, cfg, fs)
         ctx.guard(scope_restore, ctx, cfg, fs)
         ctx.guard(tokenizer_append_only, ctx, cfg, fs)
+        ctx.guard(consumers.accept_sets, ctx, cfg, fs, 'A.accept-sets')
 
 def tokenizer_append_only(ctx, cfg, fs):
     """every call that can shrink a Vec<Arg> (the item list under construction): allowed is truncate(len saved at entry)"""
